@@ -84,6 +84,9 @@ def judge_cond(res, report, selftest=False):
         if "shape" in x:
             shape[x["id"]] = x["shape"]
             st["shapes"] += 1
+            if x.get("or_dummy"):
+                st.setdefault("or_dummy_builds", []).append({"inner_cap_height": x["inner_cap_height"], "built": x["or_dummy"]["built"],
+                                                             "why": (x["or_dummy"].get("panic") or x["or_dummy"].get("err") or "")[:120]})
             continue
         if x.get("unavailable"):
             st["unavailable"] += 1
@@ -258,7 +261,7 @@ def run(chk, tier):
         for k in range(5):
             cond_rows.append({"id": "c%d_%d" % (si, k), "slot": si, "prog": pick(p1)["prog"], "cfg": STD if si == 0 else pick(strong), "inputs": pick(classes),
                               "pad": pick([2, 20, 60]), "combos": pick_combos(combos, rnd, 4 if thorough else 1), "sample": 2,
-                              "selftest": 8 if si == 0 else 0})
+                              "selftest": 8 if si == 0 else 0, "probe_or_dummy": True})
     dummy_rows = [{"id": "d%d" % i, "prog": pick(p1)["prog"], "cfg": STD if i % 3 == 0 else pick(strong), "inputs": pick(classes), "pad": pick([0, 3, 30])}
                   for i in range(ndummy)]
     # a chain of three proofs is always part of the replay; two base-case variants (all-zero map / a start value)
